@@ -19,13 +19,52 @@ def _worker(args: Tuple[str, str, Any]) -> Dict[str, Any]:
         return {"shard": shard, "crash": f"{ex!r}\n{traceback.format_exc()}"}
 
 
-def run_shards(modname: str, fn: str, shards: List[Any], procs: int = 0) -> List[Dict[str, Any]]:
-    procs = procs or min(len(shards), int(os.environ.get("VERIF_PROCS", "16")))
-    if procs <= 1 or len(shards) == 1:
-        return [_worker((modname, fn, s)) for s in shards]
+def _run_pool(jobs: List[Tuple[str, str, Any]], procs: int, timeout: float) -> List[Tuple[str, Dict[str, Any]]]:
+    """Robust against workers that die (OOM under RLIMIT_AS, crash) or hang: each job is a
+    future; a broken pool or a timeout turns the unfinished jobs into crash records."""
+    import concurrent.futures as cf
+
+    out: List[Tuple[str, Dict[str, Any]]] = []
     ctx = mp.get_context("fork")
-    with ctx.Pool(procs, maxtasksperchild=1) as pool:
-        return list(pool.imap_unordered(_worker, [(modname, fn, s) for s in shards], chunksize=1))
+    ex = cf.ProcessPoolExecutor(max_workers=procs, mp_context=ctx)
+    futs = {ex.submit(_worker, j): j for j in jobs}
+    deadline = time.monotonic() + timeout
+    try:
+        pending = set(futs)
+        while pending:
+            left = deadline - time.monotonic()
+            if left <= 0:
+                break
+            done, pending = cf.wait(pending, timeout=min(left, 5.0), return_when=cf.FIRST_COMPLETED)
+            for f in done:
+                j = futs[f]
+                try:
+                    out.append((j[1], f.result()))
+                except BaseException as e:  # noqa  (BrokenProcessPool etc.)
+                    out.append((j[1], {"shard": j[2] if not isinstance(j[2], dict) else j[2].get("name", "?"),
+                                       "crash": f"worker died: {e!r}", "died": True}))
+        for f in pending:
+            j = futs[f]
+            out.append((j[1], {"shard": "?", "crash": f"shard exceeded the {timeout:.0f}s wall budget", "timeout": True}))
+    finally:
+        for p_ in list(getattr(ex, "_processes", {}).values()):
+            try:
+                p_.kill()
+            except Exception:
+                pass
+        ex.shutdown(wait=False, cancel_futures=True)
+    return out
+
+
+def run_shards(modname: str, fn: str, shards: List[Any], procs: int = 0, timeout: float = 3000.0) -> List[Dict[str, Any]]:
+    procs = procs or min(len(shards), int(os.environ.get("VERIF_PROCS", "16")))
+    return [r for _, r in _run_pool([(modname, fn, s) for s in shards], max(procs, 1), timeout)]
+
+
+def run_mixed(modname: str, jobs: List[Tuple[str, Any]], procs: int = 0, timeout: float = 3000.0) -> List[Tuple[str, Dict[str, Any]]]:
+    """jobs = [(function name, shard)]; returns [(function name, result)] (unordered)."""
+    procs = procs or min(len(jobs), int(os.environ.get("VERIF_PROCS", "16")))
+    return _run_pool([(modname, fn, s) for fn, s in jobs], max(procs, 1), timeout)
 
 
 def shard_result(eng: Any, **kw: Any) -> Dict[str, Any]:
